@@ -105,6 +105,20 @@ func init() {
 	c03.Stub = nil
 	c03.Assume = []string{"the injected runtime/config databases and the external database API path are not exercised by this check (the API path is part of C13's harness)"}
 	props["C03"] = &c03
+	props["C17"] = &propCfg{
+		Harness: "fssim", Pkgs: "log,utils,utils/renameio,database/storage/fstree,updater", FSPkgs: "utils,utils/renameio,database/storage/fstree,updater",
+		QuickRuns: 400, ThoroughRuns: 20000, RunsPerProc: 25,
+		QuickWall: 75 * time.Second, ThoroughWall: 15 * time.Minute, Level: "fault_enumeration",
+		Rule: "one evaluation = one workload case (primitive in {renameio.WriteFile, TempFile+CloseAtomicallyReplace, renameio.Symlink, CreateAtomic, CopyFileAtomic, ReplaceFileAtomic, fstree Put} x destination state {absent, present, present with other mode} x old/new content size x temp-dir choice x 0-3 concurrent readers); per case the fault-free run is recorded and then EVERY mutating file-system call is enumerated as crash point (process killed immediately before it) and as ENOSPC/EIO error point, plus short writes; distinct = distinct case description; non-trivial = every case (each has at least one crash point); the number of enumerated fault points is reported as probe fault-points-enumerated",
+		Real: []string{"utils/renameio, utils (atomic helpers), database/storage/fstree (instrumented, os.* redirected to the disk seam)", "the real file system below a scratch directory"},
+		Stub: []string{"disk seam sim/simfs: logs every call, injects crash points / errno / short writes, otherwise passes through to package os"},
+		Assume: []string{"a crash is modelled as 'nothing after the crash point has any effect' (deferred clean-up of the killed operation is suppressed); loss of un-fsynced data is not modelled by dropping data but checked on the call log (last write < fsync < rename)", "updater download and archive unpacking are not part of this check yet"},
+	}
+	c18 := *props["C17"]
+	c18.QuickRuns, c18.ThoroughRuns, c18.Level = 6000, 400000, "exploration"
+	c18.Rule = "one evaluation = one run of up to 12 generated names (segments a, b, '..', '.', empty, the root's own name, sibling names extending the root's name; leading/trailing separators) against one component (fstree Get/Put/Delete/Query, DirStructure EnsureAbsPath/EnsureRelPath/EnsureRelDir, ScanStorage root, zip unpacking entry) with the root at depth 1-4 of a sandbox containing sibling directories; oracle: every logged file-system call resolves inside the root or the temp location, a before/after snapshot of everything outside the root is identical, escaping names are rejected; distinct = distinct name set; non-trivial = at least one name escapes the root lexically"
+	c18.Assume = []string{"symbolic links inside the root that point outside are not generated (the statement lists parent references, absolute paths and sibling prefixes)"}
+	props["C18"] = &c18
 	props["C20"] = &propCfg{
 		Harness: "logsim", Pkgs: "log", QuickRuns: 4000, ThoroughRuns: 150000, RunsPerProc: 100,
 		QuickWall: 70 * time.Second, ThoroughWall: 15 * time.Minute, Level: "exploration",
